@@ -23,6 +23,7 @@ From FT Require Proofs.EditSessions Proofs.EditSessionsFull Proofs.EditSessionsA
 From FT Require Gen.UserActions_gen Proofs.UserActionsTie.
 From FT Require Model.Toggle Proofs.EditInit.
 From FT Require Proofs.CoreTieBundle.
+From FT Require Proofs.AnnotatorsTie.
 Import ListNotations.
 Open Scope Z_scope.
 
@@ -199,6 +200,14 @@ Proof. exact EditInit.construct_session_WF. Qed.
 Theorem C09_core_is_generated : FT.Proofs.CoreTieBundle.core_tie_statement.
 Proof. exact FT.Proofs.CoreTieBundle.core_tie. Qed.
 
+(* ---- the two segmentation-derived annotators of the model are, for all arguments, the code translated on every run from the current _regionprops_annotator.py, _edge_annotator.py and _compute_ious.py (Gen/Annotators_gen.v; translator harness/translate_annotators.py, fail closed; combinators Model/PyRt8.v; skimage's regionprops is an oracle of which only WHICH mask of WHICH frame is measured is modelled).  The statements are those of the cited theorems of Proofs/AnnotatorsTie.v ---- *)
+Theorem C09_edge_update_is_generated : ltac:(let t := type of @FT.Proofs.AnnotatorsTie.gen_EdgeAnnotator_update_WF in exact t).
+Proof. exact @FT.Proofs.AnnotatorsTie.gen_EdgeAnnotator_update_WF. Qed.
+
+Theorem C09_edge_compute_is_generated : ltac:(let t := type of @FT.Proofs.AnnotatorsTie.gen_EdgeAnnotator_compute_WF in exact t).
+Proof. exact @FT.Proofs.AnnotatorsTie.gen_EdgeAnnotator_compute_WF. Qed.
+
+
 Example C09_ex0_fresh :
   seg ex0 = Some sg0 /\ iou_act (ft ex0) = true /\ iou_fresh ex0 /\ W_seg ex0 /\ nodes_sane ex0 sg0 /\ edges_sane ex0 /\
   edge ex0 2 4 /\ iou_of ex0 sg0 2 4 = VIou 1 3 /\ iou_of ex0 sg0 1 3 = VIou 0 1.
@@ -243,3 +252,5 @@ Print Assumptions C09_run_paint_calls.
 Print Assumptions C09_user_actions_are_generated.
 Print Assumptions C09_sessions_from_construction.
 Print Assumptions C09_core_is_generated.
+Print Assumptions C09_edge_update_is_generated.
+Print Assumptions C09_edge_compute_is_generated.
